@@ -1,2 +1,80 @@
-(* C14 statements: being extended *)
-From Morph Require Import Base.UStr.
+(* C14 — function-valued term maps are evaluated per row with the documented semantics.  Statements only.
+   Proved for executions whose inputs are constants, references and templates (names say _partial); nested executions
+   (the engine explodes the frame per inner execution, the Spec takes the product of the inner value lists) are decided
+   by the correspondence part of the check. *)
+From Coq Require Import String.
+From Morph Require Import Base.UStr Gen.Tables Model.Terms Model.Data Model.Engine Model.Mapping Model.Spec Model.Functions
+     Proofs.SplitP Proofs.TemplateP Proofs.TermP Proofs.FnmlP Proofs.UnionP Proofs.GroupingP.
+Local Open Scope N_scope.
+
+(* _materialize_fnml_template is the template loop: it substitutes the raw values of the row into the template *)
+Theorem fnml_template_is_substitution : forall segs r, wf segs = true -> fn_free (names segs) ->
+  match fnml_template (flat segs) r with
+  | Ok (v, r') => esubst (raw_val r) segs = Ok v /\
+                  (forall c, ueqb c col_aux_fnml = false -> ueqb c col_refres = false -> rget c r' = rget c r)
+  | Err e => esubst (raw_val r) segs = Err e
+  end.
+Proof. exact fnml_template_spec. Qed.
+Print Assumptions fnml_template_is_substitution.
+
+(* for each row the values of the execution are the function applied to that row's arguments: none for a null result
+   (or a result that is a null token), one per element for a list result; the engine fails iff the function raises *)
+Theorem execution_is_function_application_partial : forall scfg fe na eid r sr, s_na scfg = na ->
+  (forall e, In e (exec_rows_of (fn_table fe) eid) -> input_ok e) ->
+  (forall e, In e (exec_rows_of (fn_table fe) eid) -> fn_free (input_names e)) ->
+  (forall e n, In e (exec_rows_of (fn_table fe) eid) -> In n (input_names e) -> exists x, rget n r = Some x /\ sval scfg sr n = Some x) ->
+  forall f f',
+  match exec_fnml na (fn_params fe) (fn_apply fe) (fn_table fe) (S f) eid r with
+  | Ok rs => exists vals, spec_eval scfg fe (S f') eid sr = Some vals /\ map (rget eid) rs = map Some vals
+  | Err _ => spec_eval scfg fe (S f') eid sr = None
+  end.
+Proof. exact flat_exec_is_application. Qed.
+Print Assumptions execution_is_function_application_partial.
+
+(* the outcome of a rule with a function-valued term map does not depend on the other rules of the mapping *)
+Theorem execution_rule_independent_of_other_rules : forall cfg fe get_data rules rules' rl,
+  star_free rl = true -> mkind_eqb (r_ok rl) KParent = false ->
+  rule_triples cfg fe rules get_data rl = rule_triples cfg fe rules' get_data rl.
+Proof. intros cfg fe gd rules rules' rl H1 H2. apply rule_triples_indep; auto; intros; congruence. Qed.
+Print Assumptions execution_rule_independent_of_other_rules.
+
+(* documented contracts of built-in functions, for every argument *)
+Theorem split_explode_contract : forall s sep l, sep <> [] ->
+  apply_fun (mkgc "string_split_explode") [(u "string", s); (u "separator", sep)] = FList l -> join sep l = s.
+Proof.
+  intros s sep l Hs. unfold apply_fun.
+  repeat match goal with |- context [is_fun ?a ?b] => let v := eval vm_compute in (is_fun a b) in change (is_fun a b) with v end.
+  cbv iota. unfold farg. cbn [assoc u map list_ascii_of_string ueqb Ascii.N_of_ascii Ascii.N_of_digits N.eqb Pos.eqb andb N.add N.mul Pos.add Pos.mul].
+  destruct sep; [contradiction|]. intro H. injection H as <-. now apply join_split.
+Qed.
+Print Assumptions split_explode_contract.
+Theorem reverse_contract : forall s, apply_fun (grel "reverse") [(u "string", s)] = FStr (rev s) /\ rev (rev s) = s.
+Proof.
+  intro s. split; [|apply rev_involutive]. unfold apply_fun.
+  repeat match goal with |- context [is_fun ?a ?b] => let v := eval vm_compute in (is_fun a b) in change (is_fun a b) with v end.
+  reflexivity.
+Qed.
+Print Assumptions reverse_contract.
+Theorem upper_case_contract : forall s, length (upper s) = length s /\ upper (upper s) = upper s.
+Proof.
+  intro s. split; [apply map_length|]. unfold upper. rewrite map_map. apply map_ext. intro c. unfold up1.
+  destruct ((97 <=? c) && (c <=? 122)) eqn:E.
+  - apply andb_true_iff in E as [E1 E2]. apply N.leb_le in E1, E2.
+    assert (Hx : (97 <=? c - 32) = false) by (apply N.leb_gt; Lia.lia). rewrite Hx. reflexivity.
+  - rewrite E. reflexivity.
+Qed.
+Print Assumptions upper_case_contract.
+
+(* non-vacuity: a concrete execution over a template and a reference *)
+Definition fx_table : list fexec :=
+  [{| fe_id := u "#E"; fe_fun := mkgc "concat"; fe_param := grel "valueParam1"; fe_kind := KTempl; fe_value := u "{a}-{b}" |};
+   {| fe_id := u "#E"; fe_fun := mkgc "concat"; fe_param := grel "valueParam2"; fe_kind := KRef; fe_value := u "c" |}].
+Definition fx_env : fenv := {| fn_params := fun_params; fn_apply := apply_fun; fn_table := fx_table |}.
+Example execution_example :
+  (forall e, In e (exec_rows_of fx_table (u "#E")) -> input_ok e) /\
+  match exec_fnml [] fun_params apply_fun fx_table 3 (u "#E") [(u "a", u "x"); (u "b", u "y"); (u "c", u "z")] with
+  | Ok rs => map (rget (u "#E")) rs = [Some (u "x-yz")]
+  | Err _ => False
+  end.
+Proof. split; [intros e H; vm_compute in H; destruct H as [H|[H|[]]]; subst e; vm_compute; first [exact I|reflexivity]|vm_compute; reflexivity]. Qed.
+Print Assumptions execution_example.
